@@ -148,8 +148,14 @@ def run_build(c, regs, style, start, evs, name_handled=False):
             except (mhsm.HsmTopologyException, Diverged):
                 pass
         tfns, cbs = build_template(c, regs, hsm, log, name_handled=name_handled, fns=shared, bound=(style == "template-bound"))
+        if style == "template-other-design":
+            # a different chart whose states happen to have the same names is assembled afterwards on another object
+            r3 = random.Random(1000 * start + len(evs) + c.n)
+            c2 = charts.gen_chart(r3, nmax=8)
+            other2 = charts.probed_class(mhsm.HsmWithQueues)()
+            build_template(c2, registrations(c2, order_seed=r3.randrange(1 << 30)), other2, [], name_handled=False)
         texts = {i: hsm.to_code(tfns[i]) for i in tfns}
-        if style in ("template", "template-shared", "template-bound"):
+        if style in ("template", "template-shared", "template-bound", "template-other-design"):
             fns = tfns
         else:
             ns = {"spy_on": mhsm.spy_on, "return_status": return_status, "signals": signals}
@@ -220,6 +226,11 @@ def explore(run, n_random):
         tmpl = run_build(c, regs, "template", start, evs, name_handled)
         flat = run_build(c, regs, "flat", start, evs, name_handled)
         shar = run_build(c, regs, "template-shared", start, evs, name_handled)
+        oth = run_build(c, regs, "template-other-design", start, evs, name_handled)
+        run.traces_validated += 1
+        if norm_(oth[0], regs, name_handled) != norm_(tmpl[0], regs, name_handled) or oth[1] != tmpl[1] or oth[2] != tmpl[2]:
+            run.violate("C17/other-chart-with-same-state-names", "after another template chart with states of the same names was assembled on another "
+                        "object, this chart ran %s and ended in %s (%s); alone %s, %s (%s)" % (oth[0][:30], oth[1], oth[2], tmpl[0][:30], tmpl[1], tmpl[2]), cj)
         if not name_handled:
             bnd = run_build(c, regs, "template-bound", start, evs, False)
             run.traces_validated += 1
@@ -278,7 +289,7 @@ def replay(case):
     cc = case.get("case", case)
     c = charts.GenChart.from_json(cc["chart"])
     regs = {int(i): [tuple(x) for x in v] for i, v in cc["regs"].items()}
-    for style in ("hand", "template", "flat", "template-shared", "template-bound"):
+    for style in ("hand", "template", "flat", "template-shared", "template-bound", "template-other-design"):
         r = run_build(c, regs, style, cc["start"], cc["events"], cc.get("name_handled", False))
         print(style, r[:3])
     return 0
